@@ -348,6 +348,9 @@ def _apr_strategy(alg, relation):
             c["holder"] = draw(st.sampled_from(["tensor", "sptensor"]))
             c["printitn"] = draw(st.integers(1, 3))
             c["printinneritn"] = draw(st.integers(0, 2))
+            # also runs that do reach their stopping test (looser tolerance, more sweeps): both must stop at the same sweep
+            c["stoptol"] = draw(st.sampled_from([0.0, 1e-4, 1e-2, 0.1]))
+            c["maxiters"] = draw(st.integers(1, 6))
         if relation == "same-seed":
             c["holder"] = draw(st.sampled_from(["tensor", "sptensor"]))
         return c
@@ -486,7 +489,32 @@ def _apr_body(relation):
                           and isinstance(rb[1], ttb.ktensor) and H.snapshot(ra[1]) == H.snapshot(rb[1]),
                           "same-seed-same-starting-guess")
                 rerun = None
-            if relation != "dense-vs-sparse":
+            if relation == "printing":
+
+                def diagnose():
+                    """':objective-evaluation-normalises-running-model' when the printing run agrees with the silent one as soon as
+                    the mid-run objective evaluation (done only when printing) is made side-effect free by handing it a copy of
+                    the model -- the signature of known finding C18-F2.  Diagnosis only; the verdict stays a violation."""
+                    import importlib
+
+                    mod = importlib.import_module("pyttb.cp_apr")
+                    orig = getattr(mod, "tt_loglikelihood", None)
+                    if orig is None:
+                        return ""
+                    try:
+                        mod.tt_loglikelihood = lambda Dt, Md: orig(Dt, Md.copy())
+                        rp = _apr(X, case, apr_init(case), printitn=int(case["printitn"]),
+                                  printinneritn=int(case["printinneritn"]))[0]
+                        rs = _apr(X, case, apr_init(case))[0]
+                        DP, DS = ref.den(rp[0]), ref.den(rs[0])
+                        ok = DP.shape == DS.shape and _norm(DP - DS) <= REL * max(_norm(DP), _norm(DS))
+                    except Exception:  # noqa: BLE001
+                        ok = False
+                    finally:
+                        mod.tt_loglikelihood = orig
+                    return ":objective-evaluation-normalises-running-model" if ok else ""
+
+            elif relation != "dense-vs-sparse":
                 diagnose = None
         except _KnownPqnr:
             ctx.label("pqnr-known-assertion-not-judged")
